@@ -12,15 +12,27 @@ sb = os.path.abspath(sys.argv[1]); patch = os.path.abspath(sys.argv[2]); props =
 repo = os.path.join(sb, "repo"); verif = os.path.join(sb, "verif")
 env = dict(os.environ, VERIF_REPO=repo)
 sh(["git", "checkout", "--", "."], cwd=repo)
-# a seeded change is a diff against the /repo commit it was written for (meta.json `base_commit`)
-try:
-    base = json.load(open(os.path.join(os.path.dirname(patch), "meta.json"))).get("base_commit")
-except Exception:
-    base = None
-if base:
+# a seeded change is a diff against the /repo commit it was written for (meta.json `base_commit`); the harness
+# needs /repo's CURRENT API, so the change is applied on top of /repo's current HEAD (3-way); a change whose hunks
+# overlap a later `fix:` commit is stored rebased as patch.rebased.diff next to patch.diff
+if os.environ.get("VERIF_COMMIT"):
+    # /verif is pinned to an older commit (a seed round in progress): evaluate at the change's own base commit
+    try:
+        base = json.load(open(os.path.join(os.path.dirname(patch), "meta.json"))).get("base_commit") or "5d44106"
+    except Exception:
+        base = "5d44106"
     sh(["git", "checkout", "-q", "--detach", base], cwd=repo)
-rc, out = sh(["git", "apply", patch], cwd=repo)
+    rc, out = sh(["git", "apply", patch], cwd=repo)
+else:
+    _, head = sh(["git", "-C", os.environ.get("VERIF_MAIN_REPO", "/repo"), "rev-parse", "HEAD"])
+    sh(["git", "checkout", "-q", "--detach", head.strip()], cwd=repo)
+    rebased = os.path.join(os.path.dirname(patch), "patch.rebased.diff")
+    if os.path.exists(rebased):
+        patch = rebased
+    rc, out = sh(["git", "apply", "--3way", patch], cwd=repo)
+    sh(["git", "reset", "-q"], cwd=repo)
 if rc != 0:
+    sh(["git", "checkout", "--", "."], cwd=repo)
     print("PATCH DOES NOT APPLY:", out[-400:]); sys.exit(2)
 res = {}
 try:
